@@ -5,6 +5,7 @@ package vbb
 import (
 	"encoding/json"
 	"fmt"
+	"net"
 	"os"
 	"path/filepath"
 	"strings"
@@ -218,6 +219,8 @@ func TestC04Binary(t *testing.T) {
 				Via: rapid.SampledFrom([]string{"lib", "cli", "api"}).Draw(t, "via"), User: rapid.IntRange(0, len(c.Users)-1).Draw(t, "muser"), NewPW: fmt.Sprintf("changed-%d-pw", i)})
 		}
 		socketActivated := rapid.IntRange(0, 2).Draw(t, "runsa") == 0
+		// a long-lived agent has seen many clients that went away without a decodable request (port scans, health checks, crashed clients)
+		nDebris := rapid.SampledFrom([]int{0, 0, 0, 140, 300}).Draw(t, "debris")
 		cfg := bbConfig()
 		root, base, cfgFile, err := mkStore(cfg, c.Users)
 		if err != nil {
@@ -238,6 +241,34 @@ func TestC04Binary(t *testing.T) {
 		d, err := cfg.OpenDir(base, true)
 		if err != nil {
 			t.Fatalf("VERIF-INFRA %v", err)
+		}
+		if nDebris > 0 {
+			for i := 0; i < nDebris; i++ {
+				if has(c.Listeners, "sasl") {
+					if cn, err := net.Dial("unix", a.sock); err == nil {
+						switch i % 4 {
+						case 1:
+							cn.Write([]byte{0, 3, 'b', 'o'})
+						case 2:
+							cn.Write(vlib.RefEncode("bob", "", "", ""))
+						case 3:
+							cn.Write([]byte{0xff, 0xff, 0})
+						}
+						cn.Close()
+					}
+				}
+				for _, addr := range []string{a.httpAddr, a.ldapAddr, a.httpsAddr, a.ldapsAddr} {
+					if addr != "" && i%3 == 0 {
+						if cn, err := net.DialTimeout("tcp", addr, 5*time.Second); err == nil {
+							if i%2 == 0 {
+								cn.Write([]byte("GET /basic-auth HTTP/1.1\r\nHost: x\r\nAuthorization: Basic !!!\r\n"))
+							}
+							cn.Close()
+						}
+					}
+				}
+			}
+			vlib.Class("agent-has-seen->=128-connections-without-a-request")
 		}
 		judge := func(i int, p bbProbe, phase string) {
 			if p.PW == "" {
